@@ -171,10 +171,17 @@ func (w *work) build(p *PartSpec) (string, error) {
 		}
 	}
 	mainPkg := "./cmd/verif_" + p.Harness
+	modfile := ""
+	if len(p.ModRequires) > 0 {
+		var err error
+		if modfile, err = w.makeModfile(hdir, p.ModRequires); err != nil {
+			return "", err
+		}
+	}
 	if p.Instrument {
 		cfg := instr.Config{
 			RepoDir: repoDir, OutDir: filepath.Join(hdir, "instr"), Overlay: ov, Env: w.goEnv,
-			Patterns: append([]string{mainPkg}, p.InstrPkgs...), Probes: p.Probes,
+			Patterns: append([]string{mainPkg}, p.InstrPkgs...), Probes: p.Probes, FsPoints: p.FsPoints, Modfile: modfile,
 		}
 		nov, err := instr.Run(cfg)
 		if err != nil {
@@ -189,6 +196,9 @@ func (w *work) build(p *PartSpec) (string, error) {
 	}
 	bin := filepath.Join(hdir, "harness")
 	args := []string{"build", "-overlay", ovPath, "-tags", "verif", "-o", bin}
+	if modfile != "" {
+		args = append(args, "-modfile="+modfile)
+	}
 	if p.Race {
 		args = append(args, "-race")
 	}
@@ -315,4 +325,32 @@ func (w *work) runPart(id string, p *PartSpec, tier, replay string) ([]*Result, 
 		}
 	}
 	return results, nil
+}
+
+// makeModfile writes an alternative go.mod (+go.sum) for the repository module that also requires
+// the given cached modules (e.g. porcupine) so that harness packages may import them; /repo/go.mod
+// itself is never touched.
+func (w *work) makeModfile(dir string, req []string) (string, error) {
+	mod, err := os.ReadFile(filepath.Join(repoDir, "go.mod"))
+	if err != nil {
+		return "", err
+	}
+	sum, _ := os.ReadFile(filepath.Join(repoDir, "go.sum"))
+	vsum, _ := os.ReadFile(filepath.Join(verifDir, "go.sum"))
+	mf := filepath.Join(dir, "go.mod")
+	if err := os.WriteFile(mf, mod, 0644); err != nil {
+		return "", err
+	}
+	if err := os.WriteFile(filepath.Join(dir, "go.sum"), append(append(sum, '\n'), vsum...), 0644); err != nil {
+		return "", err
+	}
+	for _, r := range req {
+		c := exec.Command(w.goBin, "mod", "edit", "-modfile="+mf, "-require="+r)
+		c.Dir = repoDir
+		c.Env = w.goEnv
+		if out, err := c.CombinedOutput(); err != nil {
+			return "", fmt.Errorf("go mod edit: %v %s", err, out)
+		}
+	}
+	return mf, nil
 }
